@@ -447,3 +447,85 @@ def gaps_ok(inp, outs, model):
                                            for (A, B, g) in nb if g is not None])
                         ok = AND(ok, OR(is_join, keeps_input))
     return ok
+
+
+# ---------------------------------------------------------------- C09 routing oracle
+import re as _re
+
+KNOWN_TAGS = {"Contaminant", "Cut", "FalseDuplicate", "Haplotig", "Singleton", "Unloc", "Painted", "Target", "Primary"}
+
+
+def _looks_like_chr_name(tag):
+    return _re.fullmatch(r"([A-Z]\d*|[IVX_]+|\d+[A-Z]+)", tag) is not None
+
+
+def documented_destination(piece_tags, group_tags, first_row_name, target_seen):
+    """where the README/help text says a piece goes: (kind, haplotype) with kind
+    in {'Haplotig','Contaminant','FalseDuplicate', None}; haplotype lower-cased
+    or None"""
+    hap = None
+    for t in group_tags:
+        if t not in KNOWN_TAGS and not _looks_like_chr_name(t):
+            hap = t.lower()
+    if hap is None:
+        m = _re.search(r"^([^_]+)_.+_\d+$", first_row_name)
+        if m:
+            hap = m.group(1).lower()
+    if "Haplotig" in piece_tags:
+        return ("Haplotig", hap)
+    if "FalseDuplicate" in piece_tags:
+        return ("FalseDuplicate", hap)
+    if "Contaminant" in piece_tags or (target_seen and "Target" not in group_tags):
+        return ("Contaminant", hap)
+    return (None, hap)
+
+
+def asm_matches(key, asm, dest):
+    kind, hap = dest
+    if kind is not None:
+        return key == kind and not asm.curated
+    if key in ("Haplotig", "Contaminant", "FalseDuplicate"):
+        return False
+    if hap is None:
+        return key is None and asm.curated
+    return key is not None and key.lower() == hap and asm.curated
+
+
+def routing_ok(inp, layout, groups, outs, E):
+    oidx = out_frags(outs)
+    ok = True
+    target_seen = False
+    for gname, pieces in groups:
+        gtags = set()
+        for p in pieces:
+            gtags |= set(p[4])
+        if "Target" in gtags:
+            target_seen = True
+        for (iname, ps, pe, po, tags) in pieces:
+            dest = documented_destination(tags, gtags, pieces[0][0], target_seen)
+            contigs, meets, cov = piece_core_terms(layout[iname], oidx, ps, pe, po, E)
+            for (n, r, s, e) in contigs:
+                good, bad = [], []
+                for j, t in cov[n].items():
+                    (k, sc, i, f) = oidx[j]
+                    (good if asm_matches(k, outs[k], dest) else bad).append(t)
+                ok = AND(ok, IMPLIES(meets[n], AND(COUNT(good) == 1, COUNT(bad) == 0)))
+    return ok, target_seen
+
+
+def whole_contigs_in(outs, contigs, pred):
+    """every listed input contig appears whole, exactly once, and only in
+    assemblies accepted by pred(key, asm)"""
+    oidx = out_frags(outs)
+    ok = True
+    for c in contigs:
+        good, bad = [], []
+        for (k, sc, i, f) in oidx:
+            if f.name == c.name:
+                t = AND(f.start == c.start, f.end == c.end)
+                (good if pred(k, outs[k]) else bad).append(t)
+                if not pred(k, outs[k]):
+                    # no part of it at all elsewhere
+                    bad.append(AND(f.start <= c.end, f.end >= c.start))
+        ok = AND(ok, COUNT(good) == 1, COUNT(bad) == 0)
+    return ok
